@@ -163,8 +163,10 @@ def aggregate(op, vals, quirks=()):
         # ordered by value (ArgMaxK descending, ArgMinK ascending); length min(K, n)
         k = int(mk.group(2))
         pairs = [(a, atom(v)) for a, v in vals if v is not None]
-        if not pairs:
+        if not vals:
             return None
+        if not pairs:
+            return []               # like List: solutions exist, all ignored
         pairs.sort(key=lambda av: av[1], reverse=(mk.group(1) == 'ArgMax'))
         top = pairs[:k + 1]
         if len(set(v for a, v in top)) != len(top):
